@@ -7,6 +7,7 @@ import itertools
 from ..algebra import NotPolynomial, Poly, ToPoly
 from ..fold import Folder, Obj, Opaque, Raised, Refuse, Sym
 from ..report import AnalysisError
+from ..amatch import AM
 from ..srcmodel import norm
 from ..state import self_attr
 
@@ -90,17 +91,15 @@ def rule_a(ctx):
     # CombinedModel routing
     f = m.func(COMB, "CombinedModel.update_model_parameters")
     ctx.consult(COMB)
-    loops = [l for l in ast.walk(f.node) if isinstance(l, ast.For) and norm(l.iter) == "enumerate(self.models)"]
-    ok = False
-    if len(loops) == 1:
-        body = [norm(s) for s in loops[0].body]
-        mv = norm(loops[0].target.elts[1])
-        ok = body == [f"{mv}.update_model_parameters(parameters_cache)", f"parameters_cache = parameters_cache[{mv}.num_parameters:]"]
-    ctx.ob(R, f.qname, "CombinedModel: parameters are consumed left to right, num_parameters per sub-model, in self.models order", ok, "", f.node)
+    am = AM(f)
+    ok = am.has(f.node, f"cache = {f.params[1]}.copy()") is not None and am.has(
+        f.node, "for pos, model in enumerate(self.models):\n    model.update_model_parameters(cache)\n    cache = cache[model.num_parameters:]") is not None
+    ctx.ob(R, f.qname, "CombinedModel: parameters are consumed left to right, num_parameters per sub-model, in self.models order", ok, str(am.show()), f.node)
     init = m.func(COMB, "CombinedModel.__init__")
-    tot = [norm(s.value) for s in ast.walk(init.node) if isinstance(s, ast.Assign) and self_attr(s.targets[0]) == "num_parameters"]
-    ctx.ob(R, init.qname, "CombinedModel: num_parameters is the sum over the sub-models", len(tot) == 1 and tot[0].startswith("sum([") and "for model in self.models" in tot[0], str(tot), init.node)
-
+    am = AM(init)
+    tot = am.has(init.node, "self.num_parameters = sum([model.num_parameters if hasattr(model, 'num_parameters') else 0 for model in self.models])")
+    n_tot = sum(1 for s in ast.walk(init.node) if isinstance(s, (ast.Assign, ast.AugAssign)) and self_attr(s.targets[0] if isinstance(s, ast.Assign) else s.target) == "num_parameters")
+    ctx.ob(R, init.qname, "CombinedModel: num_parameters is the sum over the sub-models", tot is not None and n_tot == 1, "", init.node)
 
 def rule_b(ctx):
     R = "C14.b"
@@ -109,18 +108,22 @@ def rule_b(ctx):
     f = m.func(COMB, "CombinedModel.__call__")
     p = f.params[1]
     ctx.instance(R)
-    first = [norm(s) for s in f.node.body if isinstance(s, ast.Assign)][:1]
+    am = AM(f)
+    first = [s for s in f.node.body if isinstance(s, ast.Assign)][:1]
     loops = [l for l in f.node.body if isinstance(l, ast.For)]
-    ok = first == [f"result = {p}.copy()"] and len(loops) == 1 and norm(loops[0].iter) == "self.models"
+    ok = len(first) == 1 and am.eq(first[0], f"result = {p}.copy()") and len(loops) == 1 and am.eq(loops[0].iter, "self.models") and am.eq(loops[0].target, "model")
+    RES, mv = am.actual("result") or "result", am.actual("model") or "model"
     calls = []
+    stores = []
     if loops:
-        mv = norm(loops[0].target)
         for s in ast.walk(loops[0]):
-            if isinstance(s, ast.Assign) and norm(s.targets[0]) == "result" and isinstance(s.value, ast.Call) and norm(s.value.func) == mv:
-                calls.append(norm(s.value.args[0]) if s.value.args else "")
+            if isinstance(s, ast.Assign) and norm(s.targets[0]) == RES:
+                stores.append(s)
+                if isinstance(s.value, ast.Call) and norm(s.value.func) == mv:
+                    calls.append(norm(s.value.args[0]) if s.value.args else "")
     rets = [norm(r.value) for r in ast.walk(f.node) if isinstance(r, ast.Return)]
-    ctx.ob(R, f.qname, "result = img.copy(); for model in self.models: result = model(result, ...); return result", ok and calls and all(c == "result" for c in calls) and rets == ["result"],
-           f"{first} calls on {calls} returns {rets}", f.node)
+    ctx.ob(R, f.qname, "result = img.copy(); for model in self.models: result = model(result, ...); return result", ok and calls and len(calls) == len(stores) and all(c == RES for c in calls) and rets == [RES],
+           f"calls on {calls} returns {rets}", f.node)
     ctx.floor(R, 1)
 
 
@@ -142,22 +145,29 @@ def rule_c(ctx):
     loops = [l for l in ast.walk(het.node) if isinstance(l, ast.For)]
     ok_iter = len(loops) == 1 and norm(loops[0].iter) == "enumerate(self.unique_labels)"
     ctx.ob(R, het.qname, "labels are visited as enumerate(self.unique_labels)", ok_iter, norm(loops[0].iter) if loops else "", het.node)
-    if loops:
+    if loops and ok_iter and isinstance(loops[0].target, ast.Tuple) and len(loops[0].target.elts) == 2:
         cnt, lab = (norm(e) for e in loops[0].target.elts)
         env = {norm(s.targets[0]): s.value for s in loops[0].body if isinstance(s, ast.Assign) and isinstance(s.targets[0], ast.Name)}
         stores = [s for s in loops[0].body if isinstance(s, ast.Assign) and isinstance(s.targets[0], ast.Subscript)]
         val = None
         if len(stores) == 1:
             v = stores[0].value
-            if isinstance(v, ast.Subscript) and isinstance(v.value, ast.Name) and v.value.id in env:
-                val = env[v.value.id]
             mk = norm(stores[0].targets[0].slice)
             mask_def = norm(env[mk]) if mk in env else ""
-            ctx.ob(R, het.qname, "mask is cached_labels == label, applied to both sides of the assignment", mask_def == f"self.cached_labels == {lab}" and norm(stores[0].value.slice) == mk, mask_def, stores[0])
+            if isinstance(v, ast.Subscript) and isinstance(v.value, ast.Name) and v.value.id in env:
+                val = env[v.value.id]
+                both = norm(v.slice) == mk
+            else:
+                # masked right-hand side: every occurrence of the input must be restricted by the same mask
+                val = v
+                occ = [x for x in ast.walk(v) if isinstance(x, ast.Name) and x.id == het.params[1]]
+                both = bool(occ) and all(isinstance(getattr(x, "_parent", None), ast.Subscript) and x._parent.value is x and norm(x._parent.slice) == mk for x in occ)
+                masked_input = f"{het.params[1]}[{mk}]"
+            ctx.ob(R, het.qname, "mask is cached_labels == label, applied to both sides of the assignment", mask_def == f"self.cached_labels == {lab}" and both, mask_def, stores[0])
         if val is not None:
             def atom(n):
                 t = norm(n)
-                if t == het.params[1]:
+                if t == het.params[1] or t == f"{het.params[1]}[{mk}]":
                     return "x"
                 if t == f"self._scaling[{cnt}]":
                     return "self._scaling"
@@ -196,16 +206,22 @@ def rule_c(ctx):
     ctx.ob(R, g.qname, "both variants use strict > lower and < upper", oh == og == [("Gt", "lower"), ("Lt", "upper")], f"homogeneous {oh}, heterogeneous {og}", g.node)
     loops = [l for l in ast.walk(g.node) if isinstance(l, ast.For)]
     ok = False
-    if len(loops) == 1 and norm(loops[0].iter) == "enumerate(np.unique(self._labels))":
-        i, lab = (norm(e) for e in loops[0].target.elts)
-        txt = [norm(s) for s in ast.walk(loops[0]) if isinstance(s, ast.Assign)]
-        ok = (f"threshold_mask_i = {g.params[1]} > self._threshold_lower[{i}]" in txt
-              and f"threshold_mask_i = np.logical_and(threshold_mask_i, {g.params[1]} < self._threshold_upper[{i}])" in txt
-              and f"roi = np.logical_and(threshold_mask_i, self._labels == {lab})" in txt and "threshold_mask[roi] = True" in txt)
-    ctx.ob(R, g.qname, "label i uses thresholds i and is restricted to labels == label", ok, "", g.node)
+    am = AM(g)
+    gi = g.params[1]
+    if len(loops) == 1:
+        ok = am.eq(loops[0], "for i, label in enumerate(np.unique(self._labels)):\n"
+                             f"    mask_i = {gi} > self._threshold_lower[i]\n"
+                             "    if self._threshold_upper is not None:\n"
+                             f"        mask_i = np.logical_and(mask_i, {gi} < self._threshold_upper[i])\n"
+                             "    roi = np.logical_and(mask_i, self._labels == label)\n"
+                             "    total[roi] = True") \
+            and am.has(g.node, "total = np.zeros(self._labels.shape[:2], dtype=bool)") is not None and am.has(g.node, "return total") is not None
+    ctx.ob(R, g.qname, "label i uses thresholds i and is restricted to labels == label", ok, str(am.show()), g.node)
     call = m.func(STM, "StaticThresholdModel.__call__")
-    rets = [norm(r.value) for r in ast.walk(call.node) if isinstance(r, ast.Return)]
-    ctx.ob(R, call.qname, "an optional mask is conjoined with the threshold mask", f"np.logical_and(threshold_mask, {call.params[2]})" in rets, str(rets), call.node)
+    am = AM(call)
+    ok = am.has(call.node, f"if self._is_homogeneous:\n    tm = self._call_homogeneous({call.params[1]})\nelse:\n    tm = self._call_heterogeneous({call.params[1]})") is not None \
+        and am.has(call.node, f"return np.logical_and(tm, {call.params[2]})") is not None
+    ctx.ob(R, call.qname, "an optional mask is conjoined with the threshold mask", ok, str(am.show()), call.node)
     ctx.floor(R, 2)
 
 
@@ -218,8 +234,10 @@ def rule_d(ctx):
     clips = [c for c in ast.walk(f.node) if isinstance(c, ast.Call) and norm(c.func) == "np.clip"]
     ok = len(clips) == 2 and all([norm(a) for a in c.args[1:]] == ["self._min_value", "self._max_value"] for c in clips)
     ctx.ob(R, f.qname, "both input kinds clip with (self._min_value, self._max_value)", ok, str([norm(c) for c in clips]), f.node)
-    txt = [norm(s) for s in ast.walk(f.node) if isinstance(s, (ast.Assign, ast.Return))]
-    ctx.ob(R, f.qname, "Image input: a copy is clipped and returned", f"result = {f.params[1]}.copy()" in txt and "result.img = np.clip(result.img, self._min_value, self._max_value)" in txt and "return result" in txt, "", f.node)
+    am = AM(f)
+    br = [n for n in ast.walk(f.node) if isinstance(n, ast.If) and norm(n.test) == f"isinstance({f.params[1]}, darsia.Image)"]
+    ok = len(br) == 1 and am.eq_block(br[0].body, [f"result = {f.params[1]}.copy()", "result.img = np.clip(result.img, self._min_value, self._max_value)", "return result"])
+    ctx.ob(R, f.qname, "Image input: a copy is clipped and returned", ok, str(am.show()), f.node)
     ctx.floor(R, 1)
 
 
@@ -269,12 +287,26 @@ def rule_e(ctx):
 
         try:
             kf = kernel_form()
+            irets = [r.value for r in ast.walk(inner) if isinstance(r, ast.Return) and r.value is not None]
+            accs = {s.target.id for s in ast.walk(inner) if isinstance(s, ast.AugAssign) and isinstance(s.target, ast.Name) and isinstance(s.op, ast.Add)}
+            ctx.need(len(irets) == 1 and len(accs) == 1, f"{lc.qname}: the numba kernel has no single accumulator / return")
+            OUT = next(iter(accs))
+
+            def ret_atom(n):
+                t = norm(n)
+                if t == OUT:
+                    return "ACC"
+                if t == f"np.sum({wts})":
+                    return "SUMW"
+                return None
+            ret_poly = ToPoly(atomize=ret_atom)(irets[0])
+            tail = ret_poly - Poly.atom("ACC")
             # n = 0 term
             env0 = {}
             first = None
             for s in inner.body:
                 if isinstance(s, ast.Assign) and isinstance(s.targets[0], ast.Name):
-                    if s.targets[0].id == "output":
+                    if s.targets[0].id == OUT:
                         first = s.value
                         break
                     env0[s.targets[0].id] = s.value
@@ -282,7 +314,12 @@ def rule_e(ctx):
             ctx.need(first is not None and len(loops) == 1, f"{lc.qname}: output initialisation / loop not found")
             W0 = Poly.atom(f"{wts}[0]")
             f0 = loop_form(first, env0, "0")
-            ctx.ob(R, lc.qname, f"{cname}: n = 0 term is weights[0] * kernel(signal, supports[0])", f0 == W0 * kf, f"{f0!r} vs {W0 * kf!r}", inner)
+            # a kernel-parameter constant c may be factored out of every term iff c * sum(weights) is added to the result
+            c = (W0 * kf - f0) / W0
+            c_ok = c.atoms() <= set(pmap.values())
+            ctx.ob(R, lc.qname, f"{cname}: n = 0 term is weights[0] * kernel(signal, supports[0])", c_ok and f0 + W0 * c == W0 * kf, f"{f0!r} vs {W0 * kf!r}", inner)
+            ctx.ob(R, lc.qname, f"{cname}: the value returned is the accumulated sum (plus c * sum(weights) for a constant c factored out of every term)",
+                   "ACC" not in tail.atoms() and c_ok and tail == c * Poly.atom("SUMW"), f"returns {norm(irets[0])}; constant factored out of the terms: {c!r}", inner)
             lp = loops[0]
             nvar = norm(lp.target)
             envn = {}
@@ -290,14 +327,14 @@ def rule_e(ctx):
             for s in lp.body:
                 if isinstance(s, ast.Assign) and isinstance(s.targets[0], ast.Name):
                     envn[s.targets[0].id] = s.value
-                elif isinstance(s, ast.AugAssign) and norm(s.target) == "output" and isinstance(s.op, ast.Add):
+                elif isinstance(s, ast.AugAssign) and norm(s.target) == OUT and isinstance(s.op, ast.Add):
                     aug = s.value
             ctx.need(aug is not None, f"{lc.qname}: accumulation not found")
             fn = loop_form(aug, envn, nvar)
             Wn = Poly.atom(f"{wts}[{nvar}]")
-            ctx.ob(R, lc.qname, f"{cname}: loop summand is weights[n] * kernel(signal, supports[n])", fn == Wn * kf, f"{fn!r} vs {Wn * kf!r}", lp)
-            ctx.ob(R, lc.qname, f"{cname}: loop covers n = 1 .. num_supports - 1", norm(lp.iter) == "range(1, num_supports)" and any(
-                isinstance(s, ast.Assign) and norm(s) == f"num_supports = len({sup})" for s in inner.body), norm(lp.iter), lp)
+            ctx.ob(R, lc.qname, f"{cname}: loop summand is weights[n] * kernel(signal, supports[n])", fn + Wn * c == Wn * kf, f"{fn!r} vs {Wn * kf!r}", lp)
+            amk = AM(lc)
+            ctx.ob(R, lc.qname, f"{cname}: loop covers n = 1 .. num_supports - 1", amk.has(inner, f"count = len({sup})") is not None and amk.eq(lp.iter, "range(1, count)"), norm(lp.iter), lp)
         except NotPolynomial as e:
             raise AnalysisError(f"{lc.qname}: kernel expression outside the polynomial language: {e}")
         deco = [d for d in inner.decorator_list if isinstance(d, ast.Call) and norm(d.func) in ("numba.jit", "numba.njit")]
@@ -309,9 +346,14 @@ def rule_e(ctx):
         ok = len(rets) == 1 and isinstance(rets[0], ast.Call) and norm(rets[0].func) == inner.name and [norm(a) for a in rets[0].args[:3]] == lc.params[1:4] and norm(rets[0].args[3]) in pmap
         ctx.ob(R, lc.qname, f"{cname}: the numba kernel receives (signal, supports, weights, kernel parameter)", ok, norm(rets[0]) if rets else "", lc.node)
     base = m.method(m.cls(KER, "BaseKernel"), "linear_combination")
-    txt = [norm(s) for s in ast.walk(base.node) if isinstance(s, (ast.Assign, ast.AugAssign))]
-    ctx.ob(R, base.qname, "plain kernel sum: weights[0]*k(signal, supports[0]) + sum_n weights[n]*k(signal, supports[n])",
-           "output = interpolation_weights[0] * self.__call__(signal, supports[0])" in txt and "output += interpolation_weights[n] * self.__call__(signal, supports[n])" in txt, "", base.node)
+    amb = AM(base)
+    b_sig, b_sup, b_w = base.params[1:4]
+    ok = all(amb.has(base.node, t) is not None for t in (
+        f"count = len({b_sup})",
+        f"acc = {b_w}[0] * self.__call__({b_sig}, {b_sup}[0])",
+        f"for n in range(1, count):\n    acc += {b_w}[n] * self.__call__({b_sig}, {b_sup}[n])",
+        "return acc"))
+    ctx.ob(R, base.qname, "plain kernel sum: weights[0]*k(signal, supports[0]) + sum_n weights[n]*k(signal, supports[n])", ok, str(amb.show()), base.node)
     ki = m.func(KINT, "KernelInterpolation.__call__")
     calls = [c for c in ast.walk(ki.node) if isinstance(c, ast.Call) and norm(c.func) == "self.kernel.linear_combination"]
     ok = len(calls) == 1 and [norm(a) for a in calls[0].args] == [f"{ki.params[1]}.astype(np.float32)", "self.supports", "self.interpolation_weights.astype(np.float32)"]
